@@ -94,8 +94,9 @@ func (t *fnTrans) instr(in ssa.Instruction) {
 		t.sliceInstr(in)
 	case *ssa.MakeSlice:
 		ln, cp := t.idxTerm(in.Len), t.idxTerm(in.Cap)
-		t.oblige("safety", "make", "make: 0 <= len <= cap and size within limits",
-			fmt.Sprintf("(and (<= 0 %s) (<= %s %s) (<= %s 281474976710656))", ln, ln, cp, cp), in.Pos())
+		t.oblige("safety", "make", "make: 0 <= len <= cap",
+			fmt.Sprintf("(and (<= 0 %s) (<= %s %s))", ln, ln, cp), in.Pos())
+		t.assumptions["allocation sizes: running out of memory (or above the runtime's limit) is not modelled"] = true
 		et := in.Type().Underlying().(*types.Slice).Elem()
 		ev := t.elemsVar(et)
 		r := t.newRef()
